@@ -11,6 +11,7 @@ import (
 	"verifharness/core"
 	"verifharness/drive"
 	"verifharness/iofault"
+	"verifharness/refmcap"
 )
 
 // c15Reader is one reader configuration applied to a source.
@@ -26,12 +27,17 @@ func lexRun(validate bool) func(src *iofault.Source) ([]string, error, *core.Pan
 		lr := drive.Lex(iofault.NoSeek{S: src}, drive.LexOpts{Validate: validate, ComputeAttCRC: true})
 		keys := make([]string, 0, len(lr.Outs))
 		for _, o := range lr.Outs {
-			if o.AttReadErr != nil {
-				// the consumer's own read of the attachment data reported the failure: that is the outcome,
-				// not a record that was returned
+			if o.AttReadErr != nil || o.CRCErr != nil {
+				// the consumer's own read of the attachment data (or of its CRC) reported the failure: that
+				// is the outcome, not a record that was returned
 				continue
 			}
-			keys = append(keys, string([]byte{o.Op})+o.Canon)
+			k := string([]byte{o.Op}) + o.Canon
+			if o.Op == refmcap.OpAttachment {
+				// whether the computed CRC agrees with the stored one is part of what the reader reports
+				k += fmt.Sprintf("|crc_ok=%v", o.ComputedCRC == o.ParsedCRC)
+			}
+			keys = append(keys, k)
 		}
 		return keys, lr.Err, lr.Panic, lr.Outs
 	}
